@@ -165,6 +165,23 @@ def m3_path_rule(ctx) -> None:
         ctx.violation("M3", init.node, "EquivalencePathRule must run from rules[0].comb_class to rules[-1].children and keep the steps in order", construct="EquivalencePathRule.__init__")
 
 
+
+def _is_first_missing_level(f, loop, arg, cache: str, app) -> bool:
+    """`arg` (the level asked of the provider inside `loop`) is len(self.<cache>) as it is
+    when the level is appended: written out, or a local assigned that value inside the loop
+    with no append between the assignment and the use."""
+    want = f"len(self.{cache})"
+    if norm(arg) == want:
+        return True
+    if isinstance(arg, ast.Name):
+        ds = [d for d in D.definitions(f).get(arg.id, [])]
+        if len(ds) == 1 and ds[0][3] == "assign" and not ds[0][2] and ds[0][1] is not None and norm(ds[0][1]) == want:
+            st = ds[0][0]
+            inside = any(st is x for x in ast.walk(loop))
+            return inside and st.lineno < arg.lineno and not (st.lineno < app.lineno < arg.lineno)
+    return False
+
+
 def m4_generation_wiring(ctx) -> None:
     P = ctx.P
     m = P.need_method("Rule", "_ensure_level_objects", own=True)
@@ -177,7 +194,7 @@ def m4_generation_wiring(ctx) -> None:
         ctx.violation("M4", f, "Rule._ensure_level_objects must build one level per iteration from constructor.get_sub_objects and append it once", construct="Rule._ensure_level_objects shape")
         return
     a = [norm(x) for x in subs[0].args]
-    if a == ["self.subobjects", "len(self.objects_cache)"] and norm(loops[0].test) in ("n >= len(self.objects_cache)", "len(self.objects_cache) <= n"):
+    if len(a) == 2 and a[0] == "self.subobjects" and _is_first_missing_level(f, loops[0], subs[0].args[1], "objects_cache", apps[0]) and norm(loops[0].test) in ("n >= len(self.objects_cache)", "len(self.objects_cache) <= n"):
         ctx.ok("M4", "level built = get_sub_objects(self.subobjects, len(self.objects_cache)): the first missing level")
     else:
         ctx.violation("M4", subs[0], f"get_sub_objects is called with ({', '.join(a)}); the level computed must be len(self.objects_cache)")
@@ -297,7 +314,7 @@ def m4b_verification_levels(ctx) -> None:
                           construct=f"VerificationRule.{mname} shape")
             continue
         args = [norm(a) for a in calls[0].args]
-        if args == ["self.comb_class", f"len(self.{cache})"]:
+        if len(args) == 2 and args[0] == "self.comb_class" and _is_first_missing_level(f, loops[0], calls[0].args[1], cache, apps[0]):
             ctx.ok("M4", f"VerificationRule.{mname}: the level computed is len(self.{cache}), the first missing one")
         else:
             ctx.violation("M4", calls[0], f"VerificationRule.{mname} computes level `{args[1] if len(args) > 1 else '?'}` and appends it as level len(self.{cache}): when a larger "
